@@ -32,6 +32,17 @@ CLAIMS.update({
          "3.5, 4 (C06)"),
 })
 
+CLAIMS.update({
+ "C04": ("decision-table extraction by finite abstract evaluation of resolvePrec/ruleAction over go/ssa; dominance/interval guards",
+         "The compile-time precedence choice is a finite table: the check extracts it from the current code for every abstract input (presence of precedence on either side, order of groups, associativity; prior action class x resolution) and compares it with the documented table, plus the last-terminal fallback guard, the nonassoc re-encoding order, the group numbering and the directive mapping. This decides the compile-time clause of the property; the run-time effect depends on C01.",
+         "Abstract domain: comparison-only ordinals for group indices, enum constants read from the type-checked package; map lookups and field loads are named by access path.",
+         "3.2, 4 (C04)"),
+ "C03": ("dominance guards on the conflict counters; decision-table extraction of reportConflicts; may-alias analysis of lookahead-set storage",
+         "Decides only the last clause (error iff counts differ from %expect, exact per-conflict accounting by kind) and the storage discipline of lookahead sets. The LALR(1) construction itself is algorithmic and not decided.",
+         "closure/lookback/follow computation trusted as is",
+         "3.2, 4 (C03)"),
+})
+
 NA = {
 }
 
